@@ -45,15 +45,28 @@ use std::ops::Deref;
 
 pub(crate) struct AtomicUsize {
     inner: UnsafeCell<std::sync::atomic::AtomicUsize>,
+    #[cfg(may_verif)]
+    site: &'static std::panic::Location<'static>,
 }
 
 unsafe impl Send for AtomicUsize {}
 unsafe impl Sync for AtomicUsize {}
 
 impl AtomicUsize {
+    #[cfg(not(may_verif))]
     pub(crate) const fn new(val: usize) -> AtomicUsize {
         let inner = UnsafeCell::new(std::sync::atomic::AtomicUsize::new(val));
         AtomicUsize { inner }
+    }
+
+    #[cfg(may_verif)]
+    #[track_caller]
+    pub(crate) const fn new(val: usize) -> AtomicUsize {
+        let inner = UnsafeCell::new(std::sync::atomic::AtomicUsize::new(val));
+        AtomicUsize {
+            inner,
+            site: std::panic::Location::caller(),
+        }
     }
 
     /// Performs an unsynchronized load.
@@ -62,8 +75,16 @@ impl AtomicUsize {
     ///
     /// All mutations must have happened before the unsynchronized load.
     /// Additionally, there must be no concurrent mutations.
+    #[cfg(not(may_verif))]
     pub(crate) unsafe fn unsync_load(&self) -> usize {
         *(*self.inner.get()).get_mut()
+    }
+
+    #[cfg(may_verif)]
+    pub(crate) unsafe fn unsync_load(&self) -> usize {
+        crate::verif::op(self.site, self as *const _ as usize, "uload", 0, 0, 0, || {
+            *(*self.inner.get()).get_mut() as u64
+        }) as usize
     }
 }
 
@@ -85,15 +106,28 @@ impl fmt::Debug for AtomicUsize {
 
 pub(crate) struct AtomicPtr<T> {
     inner: UnsafeCell<std::sync::atomic::AtomicPtr<T>>,
+    #[cfg(may_verif)]
+    site: &'static std::panic::Location<'static>,
 }
 
 unsafe impl<T> Send for AtomicPtr<T> {}
 unsafe impl<T> Sync for AtomicPtr<T> {}
 
 impl<T> AtomicPtr<T> {
+    #[cfg(not(may_verif))]
     pub(crate) const fn new(val: *mut T) -> AtomicPtr<T> {
         let inner = UnsafeCell::new(std::sync::atomic::AtomicPtr::new(val));
         AtomicPtr { inner }
+    }
+
+    #[cfg(may_verif)]
+    #[track_caller]
+    pub(crate) const fn new(val: *mut T) -> AtomicPtr<T> {
+        let inner = UnsafeCell::new(std::sync::atomic::AtomicPtr::new(val));
+        AtomicPtr {
+            inner,
+            site: std::panic::Location::caller(),
+        }
     }
 
     /// Performs an unsynchronized load.
@@ -102,8 +136,16 @@ impl<T> AtomicPtr<T> {
     ///
     /// All mutations must have happened before the unsynchronized load.
     /// Additionally, there must be no concurrent mutations.
+    #[cfg(not(may_verif))]
     pub(crate) unsafe fn unsync_load(&self) -> *mut T {
         *(*self.inner.get()).get_mut()
+    }
+
+    #[cfg(may_verif)]
+    pub(crate) unsafe fn unsync_load(&self) -> *mut T {
+        crate::verif::op(self.site, self as *const _ as usize, "uload", 0, 0, 0, || {
+            *(*self.inner.get()).get_mut() as usize as u64
+        }) as usize as *mut T
     }
 }
 
@@ -120,5 +162,128 @@ impl<T> Deref for AtomicPtr<T> {
 impl<T> fmt::Debug for AtomicPtr<T> {
     fn fmt(&self, fmt: &mut fmt::Formatter<'_>) -> fmt::Result {
         self.deref().fmt(fmt)
+    }
+}
+
+// hooked operations: these inherent methods shadow the ones reached through
+// `Deref`, so every atomic access of the queues becomes a trace event
+#[cfg(may_verif)]
+#[allow(dead_code)]
+mod verif_impl {
+    use super::{AtomicPtr, AtomicUsize};
+    use crate::verif::{op, op_cas, ord_code};
+    use std::ops::Deref;
+    use std::sync::atomic::Ordering;
+
+    impl AtomicUsize {
+        #[inline]
+        fn a(&self) -> usize {
+            self as *const _ as usize
+        }
+        pub(crate) fn load(&self, o: Ordering) -> usize {
+            op(self.site, self.a(), "load", 0, 0, ord_code(o), || {
+                self.deref().load(o) as u64
+            }) as usize
+        }
+        pub(crate) fn store(&self, v: usize, o: Ordering) {
+            op(self.site, self.a(), "store", v as u64, 0, ord_code(o), || {
+                self.deref().store(v, o);
+                0
+            });
+        }
+        pub(crate) fn swap(&self, v: usize, o: Ordering) -> usize {
+            op(self.site, self.a(), "swap", v as u64, 0, ord_code(o), || {
+                self.deref().swap(v, o) as u64
+            }) as usize
+        }
+        pub(crate) fn fetch_add(&self, v: usize, o: Ordering) -> usize {
+            op(self.site, self.a(), "fetch_add", v as u64, 0, ord_code(o), || {
+                self.deref().fetch_add(v, o) as u64
+            }) as usize
+        }
+        pub(crate) fn fetch_sub(&self, v: usize, o: Ordering) -> usize {
+            op(self.site, self.a(), "fetch_sub", v as u64, 0, ord_code(o), || {
+                self.deref().fetch_sub(v, o) as u64
+            }) as usize
+        }
+        pub(crate) fn compare_exchange(
+            &self,
+            c: usize,
+            n: usize,
+            s: Ordering,
+            f: Ordering,
+        ) -> Result<usize, usize> {
+            op_cas(self.site, self.a(), "cas", c as u64, n as u64, ord_code(s), || {
+                self.deref().compare_exchange(c, n, s, f)
+            })
+        }
+        // executed as a strong compare-exchange (a legal refinement; keeps runs deterministic)
+        pub(crate) fn compare_exchange_weak(
+            &self,
+            c: usize,
+            n: usize,
+            s: Ordering,
+            f: Ordering,
+        ) -> Result<usize, usize> {
+            op_cas(self.site, self.a(), "cas", c as u64, n as u64, ord_code(s), || {
+                self.deref().compare_exchange(c, n, s, f)
+            })
+        }
+    }
+
+    impl<T> AtomicPtr<T> {
+        #[inline]
+        fn a(&self) -> usize {
+            self as *const _ as usize
+        }
+        pub(crate) fn load(&self, o: Ordering) -> *mut T {
+            op(self.site, self.a(), "load", 0, 0, ord_code(o), || {
+                self.deref().load(o) as usize as u64
+            }) as usize as *mut T
+        }
+        pub(crate) fn store(&self, v: *mut T, o: Ordering) {
+            op(self.site, self.a(), "store", v as usize as u64, 0, ord_code(o), || {
+                self.deref().store(v, o);
+                0
+            });
+        }
+        pub(crate) fn swap(&self, v: *mut T, o: Ordering) -> *mut T {
+            op(self.site, self.a(), "swap", v as usize as u64, 0, ord_code(o), || {
+                self.deref().swap(v, o) as usize as u64
+            }) as usize as *mut T
+        }
+        pub(crate) fn compare_exchange(
+            &self,
+            c: *mut T,
+            n: *mut T,
+            s: Ordering,
+            f: Ordering,
+        ) -> Result<*mut T, *mut T> {
+            op_cas(
+                self.site,
+                self.a(),
+                "cas",
+                c as usize as u64,
+                n as usize as u64,
+                ord_code(s),
+                || {
+                    self.deref()
+                        .compare_exchange(c, n, s, f)
+                        .map(|p| p as usize)
+                        .map_err(|p| p as usize)
+                },
+            )
+            .map(|p| p as *mut T)
+            .map_err(|p| p as *mut T)
+        }
+        pub(crate) fn compare_exchange_weak(
+            &self,
+            c: *mut T,
+            n: *mut T,
+            s: Ordering,
+            f: Ordering,
+        ) -> Result<*mut T, *mut T> {
+            self.compare_exchange(c, n, s, f)
+        }
     }
 }
